@@ -43,7 +43,6 @@ ASSUMPTIONS = ["every heap object has the literal size VP_OBJ=160 (requests <= 1
                "memcpy/memmove/memchr/memcmp are the byte loops of env/evbuf_copy.h",
                "locking disabled (evbuffer without lock); no parent bufferevent; callbacks none (C13 adds them)",
                "remove/copyout destination <= 64 bytes; expand argument <= 24; reserve/commit: the user commits <= 8 bytes per extent and does not leave the first of two extents empty while filling the second",
-               "EVBUFFER_EOL_ANY obligations (any_*) run without cbmc's pointer checks: find_eol_char computes s + 128 beyond the chain object (fixes/C12-find-eol-char-pointer-arith)",
                "allocation never fails (C14 lifts this)"]
 DESIGN_REF = "DESIGN.md §5 C12, §3.3, §3.4"
 
@@ -263,10 +262,8 @@ def gen_search(mode, tier, **kw):
     def eol(pre):
         obs.append(evb_split(mode, pre, (A, "SEARCH_EOL"), extra_defs=["VP_EOL_SKIP_ANY"], timeout=900, mem_gb=4,
                              desc_extra="; styles CRLF, CRLF_STRICT, LF, NUL", **kw))
-        ob = evb_split(mode, pre, (A, "SEARCH_EOL"), name_prefix="any_", extra_defs=["VP_EOL_ONLY_ANY"], timeout=900, mem_gb=4,
-                       desc_extra="; style ANY, cbmc pointer checks off (find_eol_char forms s+128 past the chain object)", **kw)
-        ob["cbmc"] = ob["cbmc"] + ["--no-pointer-check"]
-        obs.append(ob)
+        obs.append(evb_split(mode, pre, (A, "SEARCH_EOL"), name_prefix="any_", extra_defs=["VP_EOL_ONLY_ANY"], timeout=900, mem_gb=4,
+                             desc_extra="; style ANY (separate obligation: it goes through find_eol_char, whose pointer arithmetic past the chain object was fixed by fixes/C12-find-eol-char-pointer-arith)", **kw))
     search(G3_A, "SEARCH", 1); search(G3_A, "SEARCH_RANGE", 1); search(G3_B, "SEARCH", 2); eol(G3_B)
     if tier == "thorough":
         search(G3_A, "SEARCH", 2); search(G3_B, "SEARCH", 1); search(G3_B, "SEARCH_RANGE", 1); search(G3_B, "SEARCH_RANGE", 2)
